@@ -9,10 +9,16 @@ verus! {
 //@@ trusted the switch from the header codec to the length-delimited frame codec (map_encoder / map_decoder / bind_to_framed_codec) is a stand-in that keeps the two traces: the transport returned is known to have been built from these halves
 //@@ trusted ProtocolHeader's derived PartialEq is structural equality
 
-pub const MAJOR: u8 = 1;
-pub const MINOR: u8 = 0;
-pub const REVISION: u8 = 0;
-pub const MIN_MAX_FRAME_SIZE: usize = 512;
+//@@ type file=fe2o3-amqp-types/src/definitions/constant_def.rs kind=const name=MAJOR
+//@@ end
+//@@ type file=fe2o3-amqp-types/src/definitions/constant_def.rs kind=const name=MINOR
+//@@ end
+//@@ type file=fe2o3-amqp-types/src/definitions/constant_def.rs kind=const name=REVISION
+//@@ end
+//@@ type file=fe2o3-amqp-types/src/definitions/constant_def.rs kind=const name=MIN_MAX_FRAME_SIZE
+//@@ end
+/// AMQP 1.0 part 2, 2.2 and 2.4.1: the protocol version on the wire is 1.0.0; MIN-MAX-FRAME-SIZE is 512
+proof fn spec_header_constants() ensures MAJOR == 1 && MINOR == 0 && REVISION == 0, MIN_MAX_FRAME_SIZE == 512 {}      // [C06.constants.protocol-version] [C12.constants.protocol-version]
 
 //@@ type file=fe2o3-amqp/src/transport/protocol_header.rs kind=enum name=ProtocolId keeprepr clone
 //@@ end
